@@ -18,6 +18,7 @@ from mc.ref import merge as M
 from mc.ref.table import py, write_text
 
 PROPERTY = "C14"
+SIZE_MODULES = ['mokapot.streaming', 'mokapot.utils', 'mokapot.tabular_data']  # see mc.runner._sized_passes
 LEVEL = "exploration"
 RULE = (
     "cases = (family of inputs given as score sequences in file order, format, direction, access path, reader "
